@@ -1,11 +1,238 @@
-(* C06 — Imperfect-source model.  Statements only. *)
-From Coq Require Import ZArith List Bool Arith Lia.
+(* C06 — Imperfect-source model: normalised mixture of distinguishable photon groups.
+   Statements only; every proof is [exact <lemma>].
+
+   Reading guide.  [ops K]/[StarRing o]: any commutative ring (Base/Num.v); [Rops]: the reals.
+   nu = brightness, p_i = sqrt(indistinguishability), p2 = 1 - purity_to_prob(purity).
+   c0 .. c1d2d: the six entries of Source._single_photon_distribution.
+   [stats_raw] = Source._build_statistics before thresholding, [build_statistics] after;
+   [annotated_pdist D n] = annotated_state_pdist_calc with the per-group boson-sampling
+   distribution D (oracle function); [wsum o l F] = sum over (x,p) in l of p * F x. *)
+From Coq Require Import ZArith List Bool Arith Lia Permutation Reals Lra.
 From LW Require Import Base.Sx Base.Num Base.Sums Model.State Model.Source Proofs.SourceP.
 Import ListNotations.
 
+(* ---- the single photon table ---- *)
 Theorem C06_single_photon_sums_to_one :
   forall {K} (o : ops K) (SR : StarRing o) nu p_i p2,
-    kadd o (kadd o (kadd o (kadd o (kadd o (c0 o nu p2) (c1 o nu p_i p2)) (c1d o nu p_i p2)) (c1dp o nu p2))
+    kadd o (kadd o (kadd o (kadd o (kadd o (c0 o nu p2) (Source.c1 o nu p_i p2)) (c1d o nu p_i p2)) (c1dp o nu p2))
                    (c12d o nu p_i p2)) (c1d2d o nu p_i p2) = k1 o.
 Proof. exact (fun K o SR => @single_photon_sum K o SR). Qed.
 Print Assumptions C06_single_photon_sums_to_one.
+
+Theorem C06_single_photon_nonnegative :
+  forall nu p_i p2 : R, (0 <= nu <= 1)%R -> (0 <= p_i <= 1)%R -> (0 <= p2 < 1)%R ->
+    (0 <= c0 Rops nu p2)%R /\ (0 <= Source.c1 Rops nu p_i p2)%R /\ (0 <= c1d Rops nu p_i p2)%R /\
+    (0 <= c1dp Rops nu p2)%R /\ (0 <= c12d Rops nu p_i p2)%R /\ (0 <= c1d2d Rops nu p_i p2)%R.
+Proof. exact coeffs_nonneg. Qed.
+Print Assumptions C06_single_photon_nonnegative.
+
+(* ---- input statistics are normalised: every input state (bunched modes, gaps,
+   herald photons are ordinary entries of [st]), both dispatch branches ---- *)
+(* over any commutative ring, provided the [p > 0] filter drops only zeros and brightness <= 1 *)
+Theorem C06_stats_normalised :
+  forall {K} (o : ops K) (SR : StarRing o) nu p_i p2,
+    filter_sound (o:=o) nu p_i p2 ->
+    (klt o nu (k1 o) = false -> nu = k1 o) ->
+    forall purity indist (st : state),
+      st <> [] -> Forall (fun n => (0 <= n)%Z) st ->
+      stats_total o (stats_raw o nu p_i p2 purity indist st) = k1 o.
+Proof. exact (fun K o SR => @stats_raw_total K o SR). Qed.
+Print Assumptions C06_stats_normalised.
+
+(* over the reals, on the documented parameter ranges, with the optional threshold:
+   normalised whenever at least some probability survives the threshold *)
+Theorem C06_stats_normalised_R :
+  forall nu p_i p2 : R, (0 <= nu <= 1)%R -> (0 <= p_i <= 1)%R -> (0 <= p2 < 1)%R ->
+  forall purity indist thr (st : state),
+    st <> [] -> Forall (fun n => (0 <= n)%Z) st ->
+    (thr = 0%R \/
+     match stats_raw Rops nu p_i p2 purity indist st with
+     | SBasic d => dtotal Rops (kept (o:=Rops) thr d) <> 0%R
+     | SFull d => dtotal Rops (kept (o:=Rops) thr d) <> 0%R
+     end) ->
+    stats_total Rops (build_statistics Rops nu p_i p2 purity indist thr st) = 1%R.
+Proof. exact build_statistics_total_R. Qed.
+Print Assumptions C06_stats_normalised_R.
+
+(* merging equal keys and relabelling preserve the total *)
+Theorem C06_remap_preserves_total :
+  forall {K} (o : ops K) (SR : StarRing o) (d : list (astate * K)), dtotal o (remap o d) = dtotal o d.
+Proof. exact (fun K o SR => @remap_total K o SR). Qed.
+Print Assumptions C06_remap_preserves_total.
+
+(* thresholding keeps exactly the entries >= thr and divides them by the kept total *)
+Theorem C06_threshold_renormalises :
+  forall {K} (o : ops K) (SR : StarRing o) {A} thr (d : list (A * K)),
+    keqb o thr (k0 o) = false ->
+    threshold o thr d = map (fun e => (fst e, kmul o (snd e) (kinv o (dtotal o (kept (o:=o) thr d))))) (kept (o:=o) thr d) /\
+    (kmul o (dtotal o (kept (o:=o) thr d)) (kinv o (dtotal o (kept (o:=o) thr d))) = k1 o ->
+     dtotal o (threshold o thr d) = k1 o).
+Proof. exact (fun K o SR A thr d H => conj (threshold_entries thr d H) (threshold_total thr d H)). Qed.
+Print Assumptions C06_threshold_renormalises.
+
+(* ---- perfect settings reduce to the ideal source ---- *)
+Theorem C06_perfect_source_is_ideal :
+  forall {K} (o : ops K) (SR : StarRing o),
+    klt o (k1 o) (k1 o) = false -> keqb o (k1 o) (k1 o) = true -> keqb o (k0 o) (k0 o) = true ->
+    forall p_i p2 (st : state),
+      Forall (fun x => (0 <= x)%Z) st ->
+      build_statistics o (k1 o) p_i p2 (k1 o) (k1 o) (k0 o) st = SBasic [(st, k1 o)].
+Proof. exact (fun K o SR => @perfect_source_is_ideal K o SR). Qed.
+Print Assumptions C06_perfect_source_is_ideal.
+
+Example C06_perfect_source_hypotheses_R :
+  klt Rops (k1 Rops) (k1 Rops) = false /\ keqb Rops (k1 Rops) (k1 Rops) = true /\ keqb Rops (k0 Rops) (k0 Rops) = true.
+Proof. exact (conj Rklt11 (conj (Reqb_refl 1%R) (Reqb_refl 0%R))). Qed.
+
+(* ---- g2 = 1 - purity ---- *)
+(* the code's purity -> p2 formula solves  2 p2 / (1 + p2)^2 = 1 - purity  with p2 in (0,1) *)
+Theorem C06_purity_to_prob_spec :
+  forall purity : R, (1 / 2 < purity < 1)%R ->
+    (0 < p2_code purity < 1)%R /\
+    ((1 - purity) * ((1 + p2_code purity) * (1 + p2_code purity)) = 2 * p2_code purity)%R.
+Proof. exact p2_code_spec. Qed.
+Print Assumptions C06_purity_to_prob_spec.
+
+(* the emitted number statistics P(1), P(2) of the table have g2 = 2 P(2) / <n>^2 = 1 - purity,
+   for every brightness and indistinguishability (division-free form over any ring) *)
+Theorem C06_g2_table :
+  forall {K} (o : ops K) (SR : StarRing o) nu p_i p2 purity,
+    kmul o (ksub o (k1 o) purity) (kmul o (kadd o (k1 o) p2) (kadd o (k1 o) p2)) = kmul o (ktwo o) p2 ->
+    kmul o (ktwo o) (prob_two (o:=o) nu p_i p2)
+    = kmul o (ksub o (k1 o) purity) (kmul o (mean_n (o:=o) nu p_i p2) (mean_n (o:=o) nu p_i p2)).
+Proof. exact (fun K o SR => @g2_table K o SR). Qed.
+Print Assumptions C06_g2_table.
+
+Theorem C06_g2_is_one_minus_purity :
+  forall nu p_i purity : R, nu <> 0%R -> (1 / 2 < purity < 1)%R ->
+    let p2 := p2_code purity in
+    (2 * prob_two (o:=Rops) nu p_i p2 / (mean_n (o:=Rops) nu p_i p2 * mean_n (o:=Rops) nu p_i p2) = 1 - purity)%R.
+Proof. exact g2_is_one_minus_purity_R. Qed.
+Print Assumptions C06_g2_is_one_minus_purity.
+
+Theorem C06_sqrt_indistinguishability_spec :
+  forall ind : R, (0 <= ind <= 1)%R -> (0 <= sqrt ind <= 1)%R /\ (sqrt ind * sqrt ind = ind)%R.
+Proof. exact sqrt_indist_spec. Qed.
+Print Assumptions C06_sqrt_indistinguishability_spec.
+
+(* ---- output side: mixture over inputs, groups are independent ---- *)
+Theorem C06_output_is_mixture_over_inputs :
+  forall {K} (o : ops K) (SR : StarRing o) (D : state -> list (state * K)) n_modes inputs F,
+    wsum o (annotated_pdist o D n_modes inputs) F
+    = wsum o inputs (fun a => wsum o (combine_groups o D (decompose n_modes a)) F).
+Proof. exact (fun K o SR => @annotated_pdist_spec K o SR). Qed.
+Print Assumptions C06_output_is_mixture_over_inputs.
+
+Theorem C06_groups_are_independent :
+  forall {K} (o : ops K) (SR : StarRing o) (D : state -> list (state * K)) gs F,
+    (forall g, In g gs -> D g <> []) ->
+    wsum o (combine_groups o D gs) F = groups_expect (o:=o) D gs F.
+Proof. exact (fun K o SR => @combine_groups_spec K o SR). Qed.
+Print Assumptions C06_groups_are_independent.
+
+Theorem C06_convolution_spec :
+  forall {K} (o : ops K) (SR : StarRing o) (p q : list (state * K)) F,
+    wsum o (conv o p q) F = wsum o p (fun s1 => wsum o q (fun s2 => F (zip_add s1 s2))).
+Proof. exact (fun K o SR => @conv_spec K o SR). Qed.
+Print Assumptions C06_convolution_spec.
+
+(* probabilities are expectations of indicators *)
+Theorem C06_output_probability :
+  forall {K} (o : ops K) (SR : StarRing o) (D : state -> list (state * K)) n_modes inputs x,
+    dget st_eqb o (annotated_pdist o D n_modes inputs) x
+    = wsum o (annotated_pdist o D n_modes inputs) (fun s => if st_eqb s x then k1 o else k0 o).
+Proof. exact (fun K o SR => @annotated_pdist_prob K o SR). Qed.
+Print Assumptions C06_output_probability.
+
+(* ---- input side: independent per-photon outcomes (states without a run of >= 2 empty modes) ---- *)
+Theorem C06_inputs_are_independent_photons_partial :
+  forall {K} (o : ops K) (SR : StarRing o) nu p_i p2,
+    filter_sound (o:=o) nu p_i p2 ->
+    forall (st : state) (F : astate -> K),
+      group_empty st = ([], []) -> st <> [] -> Forall (fun n => (0 <= n)%Z) st ->
+      wsum o (full_distribution o nu p_i p2 st) F
+      = wsum o (state_outcomes o nu p_i p2 st 1%Z) (fun raw => F (an_make raw)).
+Proof. exact (fun K o SR => @full_distribution_spec_partial K o SR). Qed.
+Print Assumptions C06_inputs_are_independent_photons_partial.
+
+(* ---- the mixture specification of the whole annotated pipeline ----
+   partial: (a) no run of >= 2 empty input modes, (b) relabelling does not change the group
+   decomposition of the outcomes of this input; both are closed computations for a concrete input *)
+Theorem C06_mixture_spec_partial :
+  forall {K} (o : ops K) (SR : StarRing o) nu p_i p2,
+    filter_sound (o:=o) nu p_i p2 ->
+    forall (D : state -> list (state * K)) n_modes,
+      (forall g, D g <> []) ->
+      forall (st : state) (F : state -> K),
+        group_empty st = ([], []) -> st <> [] -> Forall (fun n => (0 <= n)%Z) st ->
+        (forall raw, In raw (map fst (state_outcomes o nu p_i p2 st 1%Z)) ->
+                     decompose n_modes (relabel (an_make raw)) = decompose n_modes (an_make raw)) ->
+        wsum o (annotated_pdist o D n_modes (build_full o nu p_i p2 st)) F
+        = wsum o (state_outcomes o nu p_i p2 st 1%Z) (fun raw => outcome_output (o:=o) D n_modes raw F).
+Proof. exact (fun K o SR => @mixture_spec_partial K o SR). Qed.
+Print Assumptions C06_mixture_spec_partial.
+
+(* ---- remapping merges only label-isomorphic states ---- *)
+Theorem C06_remap_sound :
+  forall a b : astate,
+    relabel a = relabel b ->
+    exists fa fb,
+      (forall x y, In x (concat a) -> In y (concat a) -> fa x = fa y -> x = y) /\
+      (forall x y, In x (concat b) -> In y (concat b) -> fb x = fb y -> x = y) /\
+      Forall2 (@Permutation Z) (map (map fa) a) (map (map fb) b).
+Proof. exact remap_sound. Qed.
+Print Assumptions C06_remap_sound.
+
+Theorem C06_remap_keys :
+  forall {K} (o : ops K) (d : list (astate * K)) x,
+    In x (dkeys (remap o d)) <-> exists e, In e d /\ x = relabel (fst e).
+Proof. exact (fun K => @remap_keys K). Qed.
+Print Assumptions C06_remap_keys.
+
+(* ---- Hong-Ou-Mandel ---- *)
+(* any beam splitter (r = c^2, t = s^2), brightness 1, purity 1:
+   P(1,1) = I (r - t)^2 + (1 - I) (r^2 + t^2),  I = p_i^2 *)
+Theorem C06_hom_coincidence_general :
+  forall {K} (o : ops K) (SR : StarRing o) (c s p_i : K),
+    (gt0 o p_i = false -> p_i = k0 o) ->
+    (gt0 o (ksub o (k1 o) p_i) = false -> ksub o (k1 o) p_i = k0 o) ->
+    dget st_eqb o (annotated_pdist o (D_bs (o:=o) c s) 2 (build_full o (k1 o) p_i (k0 o) [1; 1]%Z)) [1; 1]%Z
+    = kadd o (kmul o (kmul o p_i p_i) (kmul o (ksub o (bs_r (o:=o) c) (bs_t (o:=o) s)) (ksub o (bs_r (o:=o) c) (bs_t (o:=o) s))))
+             (kmul o (ksub o (k1 o) (kmul o p_i p_i))
+                   (kadd o (kmul o (bs_r (o:=o) c) (bs_r (o:=o) c)) (kmul o (bs_t (o:=o) s) (bs_t (o:=o) s)))).
+Proof. exact (fun K o SR => @hom_annotated K o SR). Qed.
+Print Assumptions C06_hom_coincidence_general.
+
+(* 50:50 beam splitter over the reals, through the dispatch of _build_statistics:
+   coincidence probability (1 - I)/2 for every I = p_i^2 in [0,1]; visibility = I *)
+Theorem C06_hom_visibility :
+  forall p_i c s : R, (0 <= p_i <= 1)%R -> (c * c = 1 / 2)%R -> (s * s = 1 / 2)%R ->
+    dget st_eqb Rops
+         (pdist_calc Rops (D_bs (o:=Rops) c s) 2 false
+                     (build_statistics Rops 1%R p_i 0%R 1%R (p_i * p_i)%R 0%R [1; 1]%Z)) [1; 1]%Z
+    = ((1 - p_i * p_i) / 2)%R /\
+    (1 - ((1 - p_i * p_i) / 2) / ((1 - 0 * 0) / 2) = p_i * p_i)%R.
+Proof. exact (fun p_i c s H Hc Hs => conj (hom_coincidence_R p_i H c s Hc Hs) (hom_visibility_R p_i)). Qed.
+Print Assumptions C06_hom_visibility.
+
+(* the beam-splitter amplitudes behind D_bs: permanent of [[c, i s], [i s, c]] *)
+Theorem C06_bs_coincidence_amplitude :
+  forall {K} (o : ops K) (SR : StarRing o) (c s : K),
+    kadd (cplx o) (kmul (cplx o) (c, k0 o) (c, k0 o)) (kmul (cplx o) (k0 o, s) (k0 o, s))
+    = (ksub o (bs_r (o:=o) c) (bs_t (o:=o) s), k0 o).
+Proof. exact (fun K o SR => @bs_coincidence_amplitude K o SR). Qed.
+Print Assumptions C06_bs_coincidence_amplitude.
+
+(* ---- hypotheses are satisfiable; non-trivial instances ---- *)
+Example C06_filter_sound_R_example : filter_sound (o:=Rops) (3 / 5)%R (3 / 5)%R (1 / 10)%R.
+Proof. apply filter_sound_R; split; lra. Qed.
+
+Example C06_purity_example : (1 / 2 < 9 / 10 < 1)%R.
+Proof. lra. Qed.
+
+Example C06_hom_hypotheses_example :
+  (0 <= 3 / 5 <= 1)%R /\ (sqrt (1 / 2) * sqrt (1 / 2) = 1 / 2)%R.
+Proof. split; [lra|]. apply sqrt_sqrt. lra. Qed.
+
+Example C06_no_grouping_example : group_empty [2; 0; 1; 0]%Z = ([], []) /\ group_empty [1; 0; 0; 1]%Z <> ([], []).
+Proof. split; [reflexivity|discriminate]. Qed.
